@@ -138,9 +138,17 @@ def gen_layout(rng, tier):
                     x0 = cand
             rects.append((x0, y0, w, h))
     borders = [rng.choice((0, 0, 0, 1, 3, 17)) for _ in rects]
+    # asymmetric interior NaN patches ("masked star"): (hx, hy, hw, hh) inside the piece, or None
+    holes = []
+    for (x0, y0, w, h) in rects:
+        if w >= 8 and h >= 8 and rng.random() < 0.35:
+            hw, hh = rng.randint(1, max(1, w // 3)), rng.randint(1, max(1, h // 3))
+            holes.append((rng.randint(0, w - hw), rng.randint(0, (h - hh) // 2), hw, hh))   # upper half only
+        else:
+            holes.append(None)
     frac = rng.choice((0, 0, fractions.Fraction(1, 2)))
     gref = (rng.randint(-200, Wm + 200) + frac, rng.randint(-200, Hm + 200) + frac)
-    return dict(Wm=Wm, Hm=Hm, rects=rects, borders=borders, gref=[str(gref[0]), str(gref[1])])
+    return dict(Wm=Wm, Hm=Hm, rects=rects, borders=borders, holes=holes, gref=[str(gref[0]), str(gref[1])])
 
 
 def gen_variant(rng, layout, force=None):
@@ -181,6 +189,10 @@ def write_inputs(layout, variant, indir):
             T[-b:, :] = np.nan
             T[:, :b] = np.nan
             T[:, -b:] = np.nan
+        hole = (layout.get("holes") or [None] * len(layout["rects"]))[k]
+        if hole:
+            hx, hy, hw, hh = hole
+            T[hy:hy + hh, hx:hx + hw] = np.nan
         tops[k] = T
         ok = ~np.isnan(T)
         P[y0:y0 + h, x0:x0 + w][ok] = T[ok]
@@ -514,6 +526,12 @@ def run(ctx, V):
         forced = [dict(parallel=rng.choice((2, 3)), fmt="fits"), dict(parallel=1)]
         for j in range(nvar):
             runs.append((layout, gen_variant(rng, layout, forced[j] if j < 2 else None)))
+    # targeted: two full-size overlapping pieces covering whole tiles; the later one has an
+    # asymmetric NaN patch inside a fully covered tile where the earlier one is defined
+    tl = dict(Wm=600, Hm=600, rects=[(0, 0, 600, 600), (0, 0, 600, 600)], borders=[0, 0],
+              holes=[None, (310, 120, 40, 30)], gref=["300", "300"])
+    for par_, fmt_, pars_ in ((1, "fits", [1, 1]), (1, "npy", [-1, -1]), (2, "fits", [-1, 1])):
+        runs.insert(0, (tl, dict(style="cd", parities=pars_, order=[0, 1], fmt=fmt_, parallel=par_)))
     rp = ctx.get("replay")
     if rp and isinstance(rp.get("case"), dict) and "layout" in rp["case"]:
         runs = [(rp["case"]["layout"], rp["case"]["variant"])] + runs[:3]
